@@ -76,6 +76,7 @@ type PhaseResult struct {
 	Extra       map[string]int64 `json:"extra,omitempty"`
 	HarnessErr  string           `json:"harness_error,omitempty"`
 	WorkersDied []string         `json:"workers_died,omitempty"`
+	WallS       float64          `json:"wall_s,omitempty"`
 }
 
 func (r *PhaseResult) AddExtra(k string, n int64) {
@@ -536,6 +537,12 @@ func runCheck(ck *Check, tier universe.Tier, tierS string, nworkers int, budget 
 			per = 8 * time.Second
 		}
 		total := &PhaseResult{Phase: ph.Name, Classes: map[string]int64{}}
+		phaseStart := time.Now()
+		defer func(t *PhaseResult, st time.Time) {
+			if t.WallS == 0 {
+				t.WallS = time.Since(st).Seconds()
+			}
+		}(total, phaseStart)
 		var mu sync.Mutex
 		var wg sync.WaitGroup
 		for s := 0; s < n; s++ {
@@ -551,6 +558,7 @@ func runCheck(ck *Check, tier universe.Tier, tierS string, nworkers int, budget 
 			}(s)
 		}
 		wg.Wait()
+		total.WallS = time.Since(phaseStart).Seconds()
 		results = append(results, total)
 	}
 	_ = deadline
@@ -681,8 +689,8 @@ func finishCheck(ck *Check, tier universe.Tier, tierS, self string, results []*P
 	wall := time.Since(start).Seconds()
 	writeEvidence(ck, tierS, results, violations, knownHit, harnessErrs, wall)
 	for _, r := range results {
-		fmt.Printf("%s/%s: executions=%d states=%d transitions=%d distinct_outcomes=%d max_depth=%d max_dev=%d failures=%d cap=%q\n",
-			ck.ID, r.Phase, r.Executions, r.States, r.Transitions, r.Distinct, r.MaxDepth, r.MaxCost, len(r.Failures), r.CapHit)
+		fmt.Printf("%s/%s: wall=%.0fs executions=%d states=%d transitions=%d distinct_outcomes=%d max_depth=%d max_dev=%d failures=%d cap=%q\n",
+			ck.ID, r.Phase, r.WallS, r.Executions, r.States, r.Transitions, r.Distinct, r.MaxDepth, r.MaxCost, len(r.Failures), r.CapHit)
 	}
 	if len(harnessErrs) > 0 {
 		for _, e := range harnessErrs {
@@ -889,7 +897,7 @@ func writeEvidence(ck *Check, tierS string, results []*PhaseResult, violations i
 		}
 		ph := map[string]interface{}{"phase": r.Phase, "executions": r.Executions, "states": r.States, "transitions": r.Transitions,
 			"distinct_outcomes": r.Distinct, "outcome_classes": len(r.Classes), "max_choice_depth": r.MaxDepth, "max_deviations": r.MaxCost,
-			"deviation_bound": allPhases[i].Bound, "failures": len(r.Failures), "exhaustive": r.CapHit == "" && len(r.WorkersDied) == 0}
+			"deviation_bound": allPhases[i].Bound, "wall_s": r.WallS, "failures": len(r.Failures), "exhaustive": r.CapHit == "" && len(r.WorkersDied) == 0}
 		if len(r.Extra) > 0 {
 			ph["counts"] = r.Extra
 		}
